@@ -21,6 +21,7 @@ type SolveResult struct {
 	Query   string // path of the query file (kept on failure)
 	Batch   bool
 	Answers map[string]string // per solver status (thorough)
+	Candidate bool // Model comes from the weakened (quantifier-free) query
 }
 
 type solverSpec struct {
@@ -205,7 +206,6 @@ func solve(query, id string, timeoutMs int, thorough bool, wantModel bool) *Solv
 func (ex *Exec) header() string {
 	var b strings.Builder
 	b.WriteString("(declare-sort Str 0)\n")
-	b.WriteString(atAxiom)
 	for _, d := range ex.decls {
 		b.WriteString(d)
 		b.WriteByte('\n')
@@ -227,7 +227,8 @@ func (ex *Exec) prefix(n int) string {
 	var b strings.Builder
 	for _, it := range ex.items[:n] {
 		if it.Ob != nil {
-			if it.Ob.ExpectSat {
+			if it.Ob.ExpectSat || it.Ob.Kind == "ensures" || it.Ob.Kind == "frame" {
+				// postconditions are proved independently of each other
 				continue
 			}
 			b.WriteString("(assert " + it.Ob.Goal + ")\n")
@@ -241,6 +242,21 @@ func (ex *Exec) prefix(n int) string {
 // queryFor builds the refutation query of a single obligation.
 func (ex *Exec) queryFor(ob *Obligation) string {
 	return ex.header() + ex.prefix(ob.Index) + "(assert (not " + ob.Goal + "))\n"
+}
+
+// modelQuery weakens a query so that solvers can answer sat: the index function becomes a macro and
+// every universally quantified assumption is dropped. A model of the weaker query is only a candidate
+// counterexample; it counts only after it has been replayed on the real code.
+func modelQuery(q string) string {
+	var b strings.Builder
+	for _, ln := range strings.Split(q, "\n") {
+		if strings.HasPrefix(ln, "(assert (forall ") {
+			continue
+		}
+		b.WriteString(ln)
+		b.WriteByte('\n')
+	}
+	return b.String()
 }
 
 // batchQuery proves all obligations with item index in [lo,hi) at once (nested weakest-precondition form).
